@@ -46,14 +46,14 @@ def runs_of(qc):
     return runs
 
 
-def judge_circuit(qc, st, solver):
+def judge_circuit(qc, st, solver, decompiler=None):
     """returns list of (kind, what)"""
     from qlasskit.decompiler import Decompiler
     from qlasskit.qcircuit import gates
 
     before = [(type(g).__name__, list(w), p) for g, w, p in qc.gates]
     try:
-        dc = Decompiler().decompile(qc)
+        dc = (decompiler or Decompiler()).decompile(qc)
     except Exception as e:
         return [("decompile-raises", "%s: %s" % (type(e).__name__, str(e)[:80]))]
     out = []
@@ -162,6 +162,35 @@ def make_items(tier, seed):
         {"nq": 3, "gates": [["mctrlx", [0, 1, 2]], ["x", [0]]]},
     ]
     items.append({"fam": "special", "circuits": special})
+    # long classical runs (hundreds of gates, shapes whose expressions stay small)
+    longs = []
+    for n in (255, 256, 257, 300, 513, 600):
+        longs.append({"nq": 3, "gates": [["h", [2]]] + [["x", [i % 2]] for i in range(n)] + [["h", [0]], ["x", [1]]]})
+        longs.append({"nq": 3, "gates": [["cx", [0, 1]]] * n + [["barrier", []], ["h", [1]]]})
+        longs.append({"nq": 4, "gates": [["x", [3]]] + [["ccx", [0, 1, 2]], ["cx", [0, 3]]] * (n // 2) + [["z", [0]], ["cx", [0, 3]]]})
+    for i in range(0, len(longs), 3):
+        items.append({"fam": "special", "circuits": longs[i : i + 3]})
+    # the same circuit object decompiled, edited in place to another gate list of the same length, and
+    # decompiled again; one Decompiler instance used for two circuits
+    rh = circorp.fixed_random(120 if tier == "thorough" else 40, 777, nq_choices=(3,), length=(2, 7))
+    hist = []
+    for a, b in zip(rh[::2], rh[1::2]):
+        n = min(len(a["gates"]), len(b["gates"]))
+        hist.append({"nq": 3, "A": a["gates"][:n], "B": b["gates"][:n]})
+    hist.append({"nq": 3, "A": [["cx", [0, 1]], ["cx", [0, 1]], ["x", [2]]], "B": [["x", [2]], ["cx", [0, 1]], ["cx", [1, 2]]]})
+    hist.append({"nq": 3, "A": [["cx", [0, 1]], ["h", [0]], ["cx", [0, 1]]], "B": [["cx", [0, 1]], ["h", [0]], ["cx", [1, 0]]]})
+    for i in range(0, len(hist), 10):
+        items.append({"fam": "history", "pairs": hist[i : i + 10]})
+    # small circuits embedded into a 13-qubit register (one- and two-digit qubit names)
+    import itertools as _it
+
+    emb = []
+    for i, seq in enumerate(_it.product(A, repeat=3)):
+        if i % (17 if tier == "thorough" else 61) == 0:
+            for m in ([3, 10, 7], [10, 2, 11], [11, 1, 0]):
+                emb.append({"nq": 13, "gates": [[g[0], [m[q] for q in g[1]]] + g[2:] for g in seq]})
+    for i in range(0, len(emb), 30):
+        items.append({"fam": "special", "circuits": emb[i : i + 30]})
     # compiled corpus functions
     from .. import corpus
 
@@ -215,8 +244,29 @@ def check_item(spec):
                     circs.append((src.split("\n")[1].strip(), qf.circuit()))
             except Exception:
                 continue
+    elif spec["fam"] == "history":
+        from qlasskit.decompiler import Decompiler
+
+        circs = []
+        shared = Decompiler()
+        for pr in spec["pairs"]:
+            qc = circorp.build(pr["A"], pr["nq"])
+            other = circorp.build(pr["B"], pr["nq"])
+            try:
+                Decompiler().decompile(qc)
+                shared.decompile(qc)
+            except Exception:
+                pass
+            for _ in range(len(qc.gates)):
+                qc.gates.pop()
+            for g, w, p in other.gates:
+                qc.append(g, list(w), p)
+            circs.append(("decompile %s; edit in place to %s; decompile" % (circorp.show(pr["A"]), circorp.show(pr["B"])), qc))
+            n += 1
+            for kind, what in judge_circuit(qc, st, solver, shared):
+                bykind.setdefault(kind, []).append("%s [shared Decompiler]: %s" % (circs[-1][0], what))
     else:
-        circs = ((circorp.show(gl), circorp.build(gl, nq)) for nq, gl in circuits_of(spec))
+        circs = ((circorp.show(gl)[:200], circorp.build(gl, nq)) for nq, gl in circuits_of(spec))
     for label, qc in circs:
         n += 1
         for kind, what in judge_circuit(qc, st, solver):
